@@ -272,8 +272,8 @@ package keeper
 
 //@ family requests   key types.GetRequestKey value types.CompactRequest
 //@ family contexts   key types.GetRequestContextKey value types.RequestContext
-//@ family activeByID key types.GetActiveRequestKeyByID value bytes enc proto
-//@ family activeByB  key types.GetActiveRequestKey value bytes enc proto
+//@ family activeByID key types.GetActiveRequestKeyByID value unit
+//@ family activeByB  key types.GetActiveRequestKey value unit
 //@ family responses  key types.GetResponseKey value types.Response
 
 // a stored compact request decodes to a full request: provider and fee come from the compact record
@@ -313,4 +313,42 @@ package keeper
 //@   ensures earned_fee: err == nil ==> (forall d:Str :: tally(earned, provider, d) == old(tally(earned, provider, d)) + amt(fee, d) - taxOf(fee, d))
 //@   ensures tax_paid:   err == nil ==> (forall d:Str :: bal(REQ, d) == old(bal(REQ, d)) - taxOf(fee, d) && bal(FEECOL, d) == old(bal(FEECOL, d)) + taxOf(fee, d))
 //@   ensures requests_kept: requests == old(requests)
+//@ end
+
+// ---------------------------------------------------------------------------------------------
+// Request contexts and their batch queues (C08, C13)
+
+//@ family newBatch   key types.GetNewRequestBatchKey value unit
+//@ family newBatchH  key types.GetNewRequestBatchHeightKey value int64 enc proto
+//@ family expBatch   key types.GetExpiredRequestBatchKey value unit
+//@ family expBatchH  key types.GetExpiredRequestBatchHeightKey value int64 enc proto
+
+//@ define CTX(i) = get(contexts, i)
+// queue markers: a context has a height marker exactly when it has a queue entry, at that height
+//@ define newQInv = (forall i:Bytes :: forall h:Int :: has(newBatch, i, h) ==> has(newBatchH, i) && get(newBatchH, i) == h)
+//@ define expQInv = (forall i:Bytes :: forall h:Int :: has(expBatch, i, h) ==> has(expBatchH, i) && get(expBatchH, i) == h)
+
+// Only the consumer of a context may operate on it.
+//@ func Keeper.CheckAuthority
+//@   property C08
+//@   returns err
+//@   ensures consumer_only: err == nil ==> has(contexts, requestContextID) && bech(consumer) == CTX(requestContextID).Consumer
+//@                            && (checkModule ==> len(CTX(requestContextID).ModuleName) == 0)
+//@ end
+
+// Start: only a paused context; it becomes running and gets a new batch at the current height unless one is already
+// scheduled (new-batch queue) or still in flight (expiration queue) - never a second entry.
+//@ func Keeper.StartRequestContext
+//@   property C08, C13
+//@   returns err
+//@   requires height >= 0
+//@   modifies contexts, newBatch, newBatchH
+//@   ensures was_paused: err == nil ==> old(has(contexts, requestContextID)) && old(CTX(requestContextID)).State == types.PAUSED
+//@                         && (len(old(CTX(requestContextID)).ModuleName) > 0 ==> bech(consumer) == old(CTX(requestContextID)).Consumer)
+//@   ensures running:    err == nil ==> CTX(requestContextID) == with(old(CTX(requestContextID)), "State", types.RUNNING)
+//@   ensures scheduled_once: err == nil ==> ite(old(has(expBatchH, requestContextID)) || old(has(newBatchH, requestContextID)),
+//@                             newBatch == old(newBatch) && newBatchH == old(newBatchH),
+//@                             newBatch == set(old(newBatch), requestContextID, height, true) && has(newBatchH, requestContextID) && get(newBatchH, requestContextID) == height)
+//@   ensures queue_inv:  old(newQInv) ==> newQInv
+//@   ensures rejected:   err != nil ==> contexts == old(contexts) && newBatch == old(newBatch) && newBatchH == old(newBatchH)
 //@ end
